@@ -317,19 +317,7 @@ func (a *An) c09Emit() {
 		}
 	}
 	a.WhoMayCall("W.drain", a.MustFn("(*keyManagementContext).revealMACKeys"), "(*Conversation).genDataMsgWithFlag")
-	if fn := a.MustFn("(dataMsg).serialize"); fn != nil {
-		for _, r := range a.returnsOf(fn) {
-			fs := a.C.WriterFields(r.Results[0])
-			n := len(fs)
-			okL := n >= 3 && fs[n-1].Kind == "DATA" && fs[n-2].Kind == "BYTES" && strings.Contains(fs[n-2].Term, "authenticator")
-			R.Check(okL, rule, "dataMsg.serialize|layout", "… ‖ MAC ‖ DATA(disclosed keys)", a.C.InstrPos(r), "fields: "+fieldsStr(fs))
-			if okL {
-				// the DATA payload accumulates every disclosed key
-				t := fs[n-1].Term
-				R.Check(strings.Contains(t, "append(") && strings.Contains(t, "oldMACKeys") || strings.Contains(t, "phi("), rule, "dataMsg.serialize|all-keys", "all disclosed keys are concatenated into the DATA field", a.C.InstrPos(r), "payload "+t)
-			}
-		}
-	}
+	a.serializeAllDisclosedKeys(rule)
 	R.Floor(rule, 6)
 }
 
@@ -505,4 +493,23 @@ func (a *An) drainedKeysGoOut(rule string) {
 		}
 	}
 	R.Check(n >= 5, rule, "sites", "generator call sites found", "", fmt.Sprintf("%d", n))
+}
+
+// serializeAllDisclosedKeys: what dataMsg.serialize writes after the MAC is every disclosed key of the message, one after
+// the other — the reader hands all of them back, so anything less does not survive the round trip.
+func (a *An) serializeAllDisclosedKeys(rule string) {
+	R := a.R
+	if fn := a.MustFn("(dataMsg).serialize"); fn != nil {
+		for _, r := range a.returnsOf(fn) {
+			fs := a.C.WriterFields(r.Results[0])
+			n := len(fs)
+			okL := n >= 3 && fs[n-1].Kind == "DATA" && fs[n-2].Kind == "BYTES" && strings.Contains(fs[n-2].Term, "authenticator")
+			R.Check(okL, rule, "dataMsg.serialize|layout", "… ‖ MAC ‖ DATA(disclosed keys)", a.C.InstrPos(r), "fields: "+fieldsStr(fs))
+			if okL {
+				// the DATA payload accumulates every disclosed key
+				t := fs[n-1].Term
+				R.Check(strings.Contains(t, "append(") && strings.Contains(t, "oldMACKeys") || strings.Contains(t, "phi("), rule, "dataMsg.serialize|all-keys", "all disclosed keys are concatenated into the DATA field", a.C.InstrPos(r), "payload "+t)
+			}
+		}
+	}
 }
